@@ -69,6 +69,7 @@ class Set(Conclusion[T]):
         if self.var._var_._id_ not in sources:
             parent_value = next(iter(self.var._evaluate__(sources)))[self.var._var_._id_]
             sources[self.var._var_._id_] = parent_value
+        self.value._reset_cache_()
         sources[self.var._var_._id_] = next(iter(self.value._evaluate__(sources)))[self.value._id_]
         return sources
 
@@ -80,6 +81,9 @@ class Add(Conclusion[T]):
     def _evaluate__(self, sources: Optional[Dict[int, HashedValue]] = None,
                     yield_when_false: bool = False) -> Dict[int, HashedValue]:
         self._yield_when_false_ = False
+        # The value is computed once for every row that draws this conclusion: what its sub-expressions (a sub-query
+        # inside it for example) have handed out for earlier rows, or in an earlier evaluation, is not a duplicate.
+        self.value._reset_cache_()
         v = next(iter(self.value._evaluate__(sources)))[self.value._id_]
         sources[self.var._var_._id_] = v
         return sources
